@@ -449,7 +449,8 @@ class SQLiteStorage(SQLiteMixin):
             return await self.db.execute_fetchall(
                 "select blob.blob_hash, blob.blob_length, blob.added_on "
                 "from blob left join stream_blob using (blob_hash) "
-                "where stream_blob.stream_hash is null and blob.is_mine=? and blob.status='finished'"
+                "where stream_blob.stream_hash is null and blob.is_mine=? and blob.status='finished' "
+                "and blob.blob_hash not in (select sd_hash from stream) "
                 "order by blob.blob_length desc, blob.added_on asc",
                 (is_mine,)
             )
